@@ -22,7 +22,9 @@ Slots == 1..NSlots
 
 Op(op, k, j, u, v, n, m, f) == [op |-> op, k |-> k, j |-> j, u |-> u, v |-> v, n |-> n, m |-> m, f |-> f]
 NoIter == [slot |-> 0, p |-> <<0, 0>>]
-St0 == [reg |-> [k \in Slots |-> IF k = 1 THEN EmptyIndex ELSE NoIndex], it |-> NoIter]
+\* hash: the lzma_index_hash object (index_hash.c): the Records appended so far, or not allocated / used up
+NoHash == [live |-> FALSE, recs |-> <<>>]
+St0 == [reg |-> [k \in Slots |-> IF k = 1 THEN EmptyIndex ELSE NoIndex], it |-> NoIter, hash |-> NoHash]
 
 Out(st, ret, why, touched, info) == [st |-> st, ret |-> ret, why |-> why, touched |-> touched, info |-> info]
 NoInfo == [s |-> 0, b |-> 0, cnt |-> 0]
@@ -48,7 +50,7 @@ Apply(st, o) ==
         upd(k, r) == Out([st EXCEPT !.reg[k] = r.idx], r.ret, r.why, {k}, NoInfo)
     IN
     CASE o.op = "init" -> Out([st EXCEPT !.reg[o.k] = EmptyIndex], "OK", "ok", {o.k}, NoInfo)
-      [] o.op = "end" -> Out([reg |-> [reg EXCEPT ![o.k] = NoIndex], it |-> dropIter(o.k)], "OK", "ok", {}, NoInfo)
+      [] o.op = "end" -> Out([st EXCEPT !.reg[o.k] = NoIndex, !.it = dropIter(o.k)], "OK", "ok", {}, NoInfo)
       [] o.op = "append" -> upd(o.k, DoAppend(reg[o.k], o.u, o.v))
       [] o.op = "appendn" ->          \* o.n times the same small Record; generated only when the result is valid
             LET i == reg[o.k]
@@ -59,7 +61,7 @@ Apply(st, o) ==
       [] o.op = "cat" ->
             LET r == DoCat(reg[o.k], reg[o.j])
             IN  IF r.ret = "OK"
-                THEN Out([reg |-> [reg EXCEPT ![o.k] = r.idx, ![o.j] = NoIndex], it |-> dropIter(o.j)],
+                THEN Out([st EXCEPT !.reg[o.k] = r.idx, !.reg[o.j] = NoIndex, !.it = dropIter(o.j)],
                          "OK", "ok", {o.k}, NoInfo)
                 ELSE Out(st, r.ret, r.why, {o.k, o.j}, NoInfo)
       [] o.op = "catn" ->             \* o.n times: a fresh index with o.m Records (o.u, o.v), flags o.f, padding 4*o.j, cat
@@ -76,6 +78,21 @@ Apply(st, o) ==
                 grp(g) == Copies(Rec(BigOf(8), BigOf(Digit(o.n, g - 1, 2))), 512)
                 all == FoldLeft(LAMBDA a, g : a \o grp(g), <<>>, [g \in 1..o.m |-> g])
             IN  upd(o.k, Res("OK", "ok", WithLast(i, [LastStream(i) EXCEPT !.recs = @ \o all])))
+      \* lzma_index_hash_*: the Records of one Stream are appended with the limit checks of lzma_index_append() on a
+      \* single Stream without padding; the verdict must be the one of DoAppend.  After LZMA_DATA_ERROR and after
+      \* decode the object is finished.  info.cnt = lzma_index_hash_size().
+      [] o.op = "hash_init" -> Out([st EXCEPT !.hash = [live |-> TRUE, recs |-> <<>>]], "OK", "ok", {},
+                                   [NoInfo EXCEPT !.cnt = IndexSize(0, 0)])
+      [] o.op = "hash_append" ->
+            LET hi == [streams |-> <<[EmptyStream EXCEPT !.recs = st.hash.recs]>>, acc |-> {}]
+                r == DoAppend(hi, o.u, o.v)
+                hs(i) == [NoInfo EXCEPT !.cnt = SizeI(i)]
+            IN  IF r.ret = "OK" THEN Out([st EXCEPT !.hash.recs = Append(@, Rec(o.u, o.v))], "OK", "ok", {}, hs(r.idx))
+                ELSE IF r.ret = "PROG_ERROR" THEN Out(st, r.ret, r.why, {}, hs(hi))
+                ELSE Out([st EXCEPT !.hash = NoHash], r.ret, r.why, {}, NoInfo)
+      [] o.op = "hash_decode" ->      \* fed with the encoded Index of slot o.k
+            Out([st EXCEPT !.hash = NoHash],
+                IF AllRecs(reg[o.k]) = st.hash.recs THEN "STREAM_END" ELSE "DATA_ERROR", "compare", {}, NoInfo)
       [] o.op = "encn" ->             \* append o.n Records (o.u, o.v), then encode -> decode (the decoded index is only observed)
             LET i == reg[o.k]
             IN  upd(o.k, Res("OK", "ok", WithLast(i, [LastStream(i) EXCEPT !.recs = @ \o Copies(Rec(o.u, o.v), o.n)])))
@@ -91,7 +108,7 @@ Apply(st, o) ==
                 i2 == WithLast(i0, [LastStream(i0) EXCEPT !.recs = @ \o Copies(Rec(BigOf(8), BigOf(1)), o.n + o.m)])
                 rest == SelectSeq(Items(i2, o.j), LAMBDA q : After(o.j, p, q))
                 q == IF rest = <<>> THEN p ELSE rest[Len(rest)]
-            IN  Out([reg |-> [reg EXCEPT ![o.k] = i2], it |-> [slot |-> o.k, p |-> q]], "END", "drained", {},
+            IN  Out([st EXCEPT !.reg[o.k] = i2, !.it = [slot |-> o.k, p |-> q]], "END", "drained", {},
                     [s |-> q[1], b |-> BlockCount(Prefix(i2, q[1])) + q[2], cnt |-> Len(rest)])
       [] o.op = "dup" -> upd(o.j, DoDup(reg[o.k]))
       [] o.op = "encdec" ->
@@ -137,6 +154,9 @@ CandDup(st)     == {O2("dup", k, j) : k \in {k \in LiveSlots(st) : NStreams(st) 
 CandEncDec(st)  == {O2("encdec", k, j) : k \in {k \in LiveSlots(st) : NStreams(st) < MaxStreams
                                                                   /\ NRecords(st) + BlockCount(st.reg[k]) <= MaxRecs},
                                         j \in FreeSlots(st)}
+CandHashInit(st) == {O2("hash_init", 0, 0)}
+CandHashAppend(st, US, VS) == IF ~st.hash.live THEN {} ELSE {Op("hash_append", 0, 0, u, v, 0, 0, NoFlags) : u \in US, v \in VS}
+CandHashDecode(st) == IF ~st.hash.live THEN {} ELSE {O2("hash_decode", k, 0) : k \in LiveSlots(st)}
 CandIterInit(st) == {O2("iter_init", k, 0) : k \in LiveSlots(st)}
 CandIterNext(st) == {Op("iter_next", 0, 0, Zero, Zero, m, 0, NoFlags) : m \in IF st.it.slot = 0 THEN {} ELSE Modes}
 CandIterLocate(st) ==
